@@ -289,7 +289,13 @@ pub fn build_api_model(cx: &mut Cx, nm: &mut Namer) -> A2lFile {
     }
     if cx.tape.chance(1, 4) {
         // an A2ML block created through the API; the text is raw text between the keywords
-        let text = cx.tape.pick_str(&["\n    block \"IF_DATA\" taggedunion { \"X\" int; };\n  ", " block \"IF_DATA\" taggedstruct { \"Y\" (uint)*; }; ", "\tblock \"IF_DATA\" taggedunion { \"X\" int; };\n", "block \"IF_DATA\" taggedunion { \"X\" int; };"]);
+        // (the variant without white space next to the keywords is known finding KF-C01-3; it is kept rare because a
+        // known finding suppresses its oracle for the whole run)
+        let text = if cx.tape.chance(1, 10) {
+            "block \"IF_DATA\" taggedunion { \"X\" int; };"
+        } else {
+            cx.tape.pick_str(&["\n    block \"IF_DATA\" taggedunion { \"X\" int; };\n  ", " block \"IF_DATA\" taggedstruct { \"Y\" (uint)*; }; ", "\tblock \"IF_DATA\" taggedunion { \"X\" int; };\n"])
+        };
         if !text.starts_with(|c: char| c.is_ascii_whitespace()) || !text.ends_with(|c: char| c.is_ascii_whitespace()) {
             cx.trigger("api-built-a2ml-text-without-surrounding-white-space");
         }
